@@ -335,3 +335,60 @@ def check_inplace_staleness(ctx, alg, cfg, call, keys, case_id, label, other_key
                       on_fresh_object=show_elem({k: w.get(k) for k in bad[:4]}))
         return 'violation'
     return 'ok'
+
+
+# ---------------------------------------------------------------------------------
+# sympy expression coefficients, including ones that are zero only after expansion ("hidden zeros"): the symbolic call path filters
+# vanishing coefficients out of its result; what remains must still sit on the right blades.
+
+def sympy_values(rng, keys):
+    import sympy
+    x, y = sympy.symbols('x y')
+    pool = [x, y, x + 1, x - 1, 1 - x ** 2, x ** 2 - 1, (x + 1) ** 2, x ** 2 + 2 * x + 1, -(x + 1) ** 2, sympy.Integer(1), sympy.Integer(-1),
+            x * y, -x * y, (x + y) * (x - y), y ** 2 - x ** 2, sympy.Integer(2)]
+    hz = [(x + 1) ** 2 - x ** 2 - 2 * x - 1, (x + y) * (x - y) - x ** 2 + y ** 2]      # not zero structurally, zero after expansion
+    mode = rng.random()
+    if mode < 0.35:
+        pool = [x + 1, x - 1, x ** 2 - 1, 1 - x ** 2, sympy.Integer(1), sympy.Integer(-1)]       # products of these cancel against each other
+    elif mode < 0.7:
+        pool = pool + hz * 3
+    return {k: rng.choice(pool) for k in keys}
+
+
+def check_sympy_values(ctx, alg, iso, cfg, op, keysets, case_id, timeout=30):
+    rng = ctx.rng
+    valmaps = [sympy_values(rng, ks) for ks in keysets]
+    mvs = [value_mv(alg, ks, vm) for ks, vm in zip(keysets, valmaps)]
+    try:
+        refs = [iso.mv_to_ref(m) for m in mvs]
+        exp = ref_apply(iso, op, *refs)
+    except NoReference:
+        return 'noref'
+    st, r = ctx.guarded(timeout, call_op, alg, op, *mvs)
+    if st == 'timeout':
+        ctx.count('case_timeouts')
+        return 'timeout'
+    if st == 'exc':
+        ctx.note_raised(r, op + '-sympy')
+        return 'raised'
+    import sympy
+    ctx.count('sympy_coefficient_executions')
+    got = iso.to_ref(zip(r.keys(), r.values())) if hasattr(r, 'keys') else {0: r}
+    hidden = sum(1 for v in exp.values() if getattr(v, 'free_symbols', None) is not None and v != 0 and sympy.expand(v) == 0)
+    if hidden:
+        ctx.count('sympy_results_with_a_coefficient_vanishing_only_after_expansion')
+        if any(getattr(v, 'free_symbols', None) is not None and sympy.expand(v) != 0 for v in exp.values()):
+            ctx.count('sympy_results_with_hidden_zero_and_nonzero_coefficients')
+    problems = []
+    if hasattr(r, 'keys') and has_dupes(tuple(r.keys())):
+        problems.append('duplicate keys in result')
+    if hasattr(r, 'keys') and len(r.keys()) != len(r.values()):
+        problems.append('result has %d keys but %d values' % (len(r.keys()), len(r.values())))
+    bad = elem_diff(got, exp)
+    if bad or problems:
+        ctx.violation('wrong-element on sympy expression coefficients', list(case_id) + ['sympy', [[str(vm[k]) for k in ks] for ks, vm in zip(keysets, valmaps)]],
+                      config=cfg, op=op, problems=problems, hidden_zero_coefficients=hidden,
+                      operands=[{alg.bin2canon[k]: str(vm[k]) for k in ks} for ks, vm in zip(keysets, valmaps)],
+                      got=show_elem({k: got.get(k) for k in bad[:4]}), expected=show_elem({k: exp.get(k, 0) for k in bad[:4]}))
+        return 'violation'
+    return 'ok'
